@@ -16,13 +16,18 @@
                                   d in −2^31..2^31−1, with and without `short`/`long`, every option byte, the second half of the per-line
                                   pipeline yields rel8 / rel32 / rejection exactly as the property says, with d's two's complement in the
                                   displacement field (AL.Lemmas.Branch.j_bytes / c_bytes / r_bytes).
+   * `rel_branch_text_dec / _neg_dec / _hex / _neg_hex` — kernel-checked, the same at the TEXT level: for each of the 20
+                                  relative-branch mnemonics of the table, no keyword / `short` / `long`, and the four spellings of the
+                                  number with leading zeros, the line `<mnemonic> [kw] <number>` goes through the whole per-line pipeline
+                                  (AL.Lemmas.BranchText: filter_branch, lex_branch, branch_line) and is accepted with exactly the expected
+                                  code or rejected, for EVERY d in −2^31..2^31−1.
   Register, memory and far-memory targets are instances of the C01 / C02 families (call, jmp, callf, jmpf).
 -/
 import AL.Properties.Sweep.C05
 import AL.Properties.C03
-import AL.Lemmas.Branch
+import AL.Lemmas.BranchText
 namespace AL.Properties.C05
-open AL AL.Impl AL.Gen AL.Spec.X86 AL.Lemmas.Branch AL.Lemmas.MovImm
+open AL AL.Impl AL.Gen AL.Spec.X86 AL.Lemmas AL.Lemmas.Branch AL.Lemmas.MovImm AL.Lemmas.MovText AL.Lemmas.BranchText AL.Properties.C03
 
 theorem rel_field_reads_back :
     (∀ d : Int, -128 ≤ d → d < 128 → toSigned 8 (leVal (leBytes 1 (d % 256).toNat)) = d) ∧
@@ -86,5 +91,78 @@ example : (match lexLine (str! "jmp short -5") with | .ok s => s == brRec 85 (st
 example : (match lexLine (str! "jne long 5") with | .ok s => s == brRec 88 (str! "jne") false true 5 true | _ => false) = true := by
   decide +kernel
 example : (85 : Int) ∈ relKeys ∧ (19 : Int) ∈ relKeys ∧ (100 : Int) ∈ relKeys := by decide +kernel
+
+/-- the statement for one spelling of the line: accepted with exactly the expected code, or rejected -/
+def BranchYields (opt : Nat) (line : Str) (key : Int) (sh lg : Bool) (v : Nat) : Prop :=
+  match brExpect key sh lg v with
+  | some bs => (assembleLine opt line).1 = .ok (.code bs)
+  | none => ∃ e, (assembleLine opt line).1 = .error e
+
+/-- **relative branches as TEXT, decimal d ≥ 0 with any number k ≤ 30 of leading zeros** -/
+theorem rel_branch_text_dec (key : Int) (name : Str) (hp : (key, name) ∈ brNames) (kwt : Str) (sh lg : Bool) (hk : KwCase kwt sh lg)
+    (k n : Nat) (hk30 : k ≤ 30) (hn : n < 2 ^ 31) (opt : Nat) :
+    BranchYields opt (name ++ 32 :: (kwt ++ kwGap kwt ++ decDigs k n)) key sh lg n := by
+  have hv : n < 2 ^ 64 := by omega
+  obtain ⟨d, rest, hd, hds⟩ := decDigs_head k n hv
+  have hall : ∀ x ∈ digitCh d :: rest, numCh x = true := by rw [← hds]; exact decDigs_num k n hv
+  have hl := decDigs_length k n
+  have := branch_line key name hp kwt sh lg hk (digitCh d) rest n true (digitCh_head d hd) hall (by rw [← hds]; omega)
+    (fun s => by rw [← hds]; exact immTok_dec_pad s k n hv) (Or.inl (by omega)) opt
+  rw [← hds] at this
+  exact this
+
+/-- negated decimal: d = −n for 0 < n ≤ 2^31 -/
+theorem rel_branch_text_neg_dec (key : Int) (name : Str) (hp : (key, name) ∈ brNames) (kwt : Str) (sh lg : Bool) (hk : KwCase kwt sh lg)
+    (k n : Nat) (hk30 : k ≤ 30) (hn0 : 0 < n) (hn : n ≤ 2 ^ 31) (opt : Nat) :
+    BranchYields opt (name ++ 32 :: (kwt ++ kwGap kwt ++ 45 :: decDigs k n)) key sh lg ((2 ^ 64 - n) % 2 ^ 64) := by
+  have hv : n < 2 ^ 64 := by omega
+  have hall : ∀ x ∈ 45 :: decDigs k n, numCh x = true := by
+    intro x hx
+    simp only [List.mem_cons] at hx
+    rcases hx with rfl | hx
+    · decide
+    · exact decDigs_num k n hv x hx
+  have hl := decDigs_length k n
+  exact branch_line key name hp kwt sh lg hk 45 (decDigs k n) ((2 ^ 64 - n) % 2 ^ 64) true (by decide) hall
+    (by simp only [List.length_cons]; omega) (fun s => immTok_neg_dec_pad s k n hv) (Or.inr (by omega)) opt
+
+/-- hexadecimal d ≥ 0 -/
+theorem rel_branch_text_hex (key : Int) (name : Str) (hp : (key, name) ∈ brNames) (kwt : Str) (sh lg : Bool) (hk : KwCase kwt sh lg)
+    (k n : Nat) (hk30 : k ≤ 30) (hn : n < 2 ^ 31) (opt : Nat) :
+    BranchYields opt (name ++ 32 :: (kwt ++ kwGap kwt ++ 48 :: 120 :: hexDigs k n)) key sh lg n := by
+  have hv : n < 2 ^ 64 := by omega
+  have hall : ∀ x ∈ 48 :: 120 :: hexDigs k n, numCh x = true := by
+    intro x hx
+    simp only [List.mem_cons] at hx
+    rcases hx with rfl | rfl | hx
+    · decide
+    · decide
+    · exact hexDigs_num k n hv x hx
+  have hl := hexDigs_length k n
+  exact branch_line key name hp kwt sh lg hk 48 (120 :: hexDigs k n) n _ (by decide) hall
+    (by simp only [List.length_cons]; omega) (fun s => immTok_hex s k n hv) (Or.inl (by omega)) opt
+
+/-- negated hexadecimal -/
+theorem rel_branch_text_neg_hex (key : Int) (name : Str) (hp : (key, name) ∈ brNames) (kwt : Str) (sh lg : Bool) (hk : KwCase kwt sh lg)
+    (k n : Nat) (hk30 : k ≤ 30) (hn0 : 0 < n) (hn : n ≤ 2 ^ 31) (opt : Nat) :
+    BranchYields opt (name ++ 32 :: (kwt ++ kwGap kwt ++ 45 :: 48 :: 120 :: hexDigs k n)) key sh lg ((2 ^ 64 - n) % 2 ^ 64) := by
+  have hv : n < 2 ^ 64 := by omega
+  have hall : ∀ x ∈ 45 :: 48 :: 120 :: hexDigs k n, numCh x = true := by
+    intro x hx
+    simp only [List.mem_cons] at hx
+    rcases hx with rfl | rfl | rfl | hx
+    · decide
+    · decide
+    · decide
+    · exact hexDigs_num k n hv x hx
+  have hl := hexDigs_length k n
+  exact branch_line key name hp kwt sh lg hk 45 (48 :: 120 :: hexDigs k n) ((2 ^ 64 - n) % 2 ^ 64) _ (by decide) hall
+    (by simp only [List.length_cons]; omega) (fun s => immTok_neg_hex s k n hv) (Or.inr (by omega)) opt
+
+/-- instances: `jmp short -5` is `eb fb`, `jne long 5` is `0f 85 05 00 00 00`, `jrcxz 300` is rejected -/
+example : brExpect 85 true false ((2 ^ 64 - 5) % 2 ^ 64) = some [0xeb, 0xfb] := by decide +kernel
+example : brExpect 88 false true 5 = some [0x0f, 0x85, 5, 0, 0, 0] := by decide +kernel
+example : brExpect 100 false false 300 = none := by decide +kernel
+example : ((85 : Int), str! "jmp") ∈ brNames := by decide
 
 end AL.Properties.C05
